@@ -23,10 +23,13 @@ RULE = ("1-5 pipelined requests on one connection (HTTP/1.0 and 1.1; Connection 
         "spellings; GET, POST with Content-Length body, POST with chunked body; optional malformed Content-Length), each "
         "answered by a scripted WSGI app (status, 0-4 headers incl. optional own Server/Date, 0-6 body pieces incl. empty "
         "ones, Content-Length absent / exact / shorter than the body / zero; generator or list style; optionally start_response "
+        "virtual clock advancing up to 6 s per pass against the 5 s idle timeout on persistent connections with slow apps / idle gaps; start_response "
         "called twice with exc_info before the first write, first/second call with/without Content-Length, or illegally after the head was sent).  Request bytes are "
         "delivered in random fragments and the fake socket accepts random amounts per send.  A case is non-trivial when "
         ">= 2 requests were answered on the connection and at least one response had no Content-Length")
-MODELLED = ["request parsing is abstracted to (version, Connection header, body framing valid?) - the request bytes "
+MODELLED = ["time: persistent requests switch the connection's idle timeout off, so the model has no clock; the harness advances a "
+            "virtual clock and the stream must not depend on it (idle timeouts of non-persistent connections are C12's)",
+            "request parsing is abstracted to (version, Connection header, body framing valid?) - the request bytes "
             "are rendered by the harness and parsed by the real Requestant",
             "CIMultiDict header container (as ordered association list, case-insensitive lookup)",
             "Date header value (clock frozen by rebinding serving.datetime; passed to the model as an input)",
@@ -412,7 +415,9 @@ def run_impl(case):
     serving.datetime = _FakeDatetimeModule
     sys.stderr = io.StringIO()   # serviceReqs reports parse errors on stderr
     try:
-        tymist = tyming.Tymist(tyme=0.0)
+        # virtual clock: advances by case["tock"] seconds after every pass (0: frozen).  The server keeps its
+        # default idle timeout of 5.0 s; a persistent request switches it off for its connection
+        tymist = tyming.Tymist(tyme=0.0, tock=float(case.get("tock", 0.0)) or 0.03125)
         server = http.Server(app=app, ha=HA)
         server.wind(tymist.tymen())
         server.servant.ss = FakeListen(sock)
@@ -425,6 +430,8 @@ def run_impl(case):
             sock.feed()
             server.service()
             passes += 1
+            if case.get("tock"):
+                tymist.tick()
             ix = server.servant.ixes.get(CA)
             busy = bool(ix and ix.txbs) or any(not r.ended for r in server.reps.values())
             after = (len(sock.out), len(sock.frags), len(sock.ready), len(calls))
@@ -626,6 +633,14 @@ def directed():
                   dict(_app("500 Replaced", headers=[cl(3)], pieces=["abc"]), first={"status": "200 OK", "headers": [list(cl(50))]}),
                   dict(_app("500 Replaced", headers=[cl(3)], pieces=["abc"]), first={"status": "200 OK", "headers": []}),
                   _app(pieces=["after"])]},
+        # virtual time advances 1.5 s per pass, server idle timeout 5 s: a persistent connection must survive a slow app
+        # (many empty yields, > 5 s without a byte moved) and idle gaps between requests
+        {"tock": 1.5, "reqs": [_req(), _req(), _req()],
+         "apps": [_app(pieces=["start"] + [""] * 8 + ["end"]), _app(headers=[cl(6)], pieces=["abc"] + [""] * 7 + ["def"]), _app(pieces=["last"])],
+         "rx": [33, 0, 0, 0, 0, 0, 0, 0, 0, 0, 0, 0, 0, 0, 33, 0, 0, 0, 0, 0, 0, 0, 0, 0, 0, 0, 0, 0, 0, 0, 0, 0, 33]},
+        {"tock": 2.0, "reqs": [_req("1.0", "keep-alive"), _req("1.0", "keep-alive")],
+         "apps": [_app(headers=[cl(4)], pieces=["ab", "", "", "", "", "cd"]), _app(headers=[cl(2)], pieces=["", "", "", "", "ok"])],
+         "rx": [59, 0, 0, 0, 0, 0, 0, 0, 0, 0, 0, 0, 0, 59]},
         # Connection: close on 1.1 with chunked response, empty body
         {"reqs": [_req(conn="close")], "apps": [_app("204 No Content" if False else "200 OK", pieces=[""])]},
     ]
@@ -691,6 +706,22 @@ def gen_case(rng, malformed=False):
             ap["first"] = {"status": rng.choice(STATUSES).strip(), "headers": fh}
         apps.append(ap)
     case = {"reqs": reqs, "apps": apps}
+    if not malformed and rng.random() < 0.2:
+        # clocked case: every request persistent (their connection has its idle timeout switched off), slow apps and idle gaps
+        for r in reqs:
+            r["conn"] = "keep-alive" if r["v"] == "1.0" else rng.choice([None, "keep-alive", "upgrade"])
+        for a in apps:
+            if rng.random() < 0.6 and a["pieces"]:
+                k = rng.randrange(len(a["pieces"]) + 1)
+                a["pieces"][k:k] = [""] * rng.randint(4, 12)
+        case["tock"] = rng.choice([0.7, 1.5, 3.0, 6.0])
+        cuts = [len(render_request(0, reqs[0]))]   # the first request arrives whole: no idle time before it is parsed
+        for i in range(1, len(reqs)):
+            cuts += [0] * rng.randint(0, 10) + [len(render_request(i, reqs[i]))]
+        case["rx"] = cuts
+        if rng.random() < 0.5:
+            case["tx"] = [rng.choice([1, 7, 50, 4096]) for _ in range(rng.randint(1, 4))]
+        return case
     if malformed:
         # a malformed request closes the connection at once and drops what is still queued of the previous
         # response (outside the property's quantifier, see design.d/C18.md): keep sends unlimited here
